@@ -113,7 +113,7 @@ def u_align2(pattern=(0, 1), npts=1, rot0=2, theta='free', scene=None):
     inp.update({f'm{i}{c}': P[i][k] for i in range(npts) for k, c in enumerate('xy')})
     if theta == 'free':
         inp.update(ang_inputs('th'))
-    return Unit(f'points_to_curve[{[DIRS2[d] for d in pattern]},points={npts},final rotation={theta}{",concrete scene " + str(scene) + ", final translation along axes " + str(free_axes) if scene is not None else ""}]', composite, lambda eng: ([], None), post, base=base, known_pos=kp, inputs=inp,
+    return Unit(f'points_to_curve[{[DIRS2[d] for d in pattern]},points={npts},final rotation={theta}{",concrete scene " + str(scene) if scene is not None else ""}]', composite, lambda eng: ([], None), post, base=base, known_pos=kp, inputs=inp,
                 observers={'minimize': lm_minimize, 'was_successful': was_successful, 'LevenbergMarquardt::new': lambda eng, callee, args: Opaque('LevenbergMarquardt')}, const_generics={'D': 2},
                 replay=('align2', lambda mm: {'pts': model_pts(mm, n, 2), 'tol': mm['tol'], 'points': [[mm[f'm{i}x'], mm[f'm{i}y']] for i in range(npts)], 'iso': T0.json(mm),
                                            'x': [mm['x0'], mm['x1'], ang(mm, 'th') if theta == 'free' else (0.0 if theta == 0 else 1.5707963267948966)]}), loop_budget=16 * n + 8 * npts + 32, max_paths=20000,
